@@ -90,7 +90,7 @@ def gen_behaviour(r, profile, geom, bid, cfg, length=None, safe_first=False):
     W = {
         "seq":     {"append": 40, "batch": 12, "read": 15, "bread": 30},
         "peek":    {"append": 32, "batch": 8, "read": 8, "bread": 16, "peek": 18, "oread": 18},
-        "reject":  {"append": 30, "batch": 10, "read": 10, "bread": 20, "bad": 20, "fault": 6},
+        "reject":  {"append": 30, "batch": 10, "read": 10, "bread": 20, "bad": 20, "fault": 6, "reopen": 5},
         "restart": {"append": 34, "batch": 8, "read": 12, "bread": 20, "reopen": 14, "mark": 5, "is_clean": 5},
         "marker":  {"append": 30, "mark": 30, "is_clean": 20, "reopen": 20},
         "drain":   {"append": 50, "batch": 10, "read": 10, "bread": 30},
@@ -123,8 +123,9 @@ def gen_behaviour(r, profile, geom, bid, cfg, length=None, safe_first=False):
             cnt = r.choice([1, 2, 2, 3, 3, 4, g["max_batch"] if geom == "tiny" else 5])
             es = []
             tot = 0
+            big_ok = r.random() < 0.25
             for _j in range(cnt):
-                e = one_entry(t, allow_big=False)
+                e = one_entry(t, allow_big=big_ok)
                 if tot + PREFIX + e[1] > g["max_batch_bytes"]:
                     e[1] = 10
                 tot += PREFIX + e[1]
